@@ -104,6 +104,20 @@ def receive (c : Cell) (payload : Bytes) : Cell × Option Nat :=
   | .ok s => (c.set (fromSettings s), none)
   | .error e => (c, some (connCode e))
 
+/-- A connection as far as SETTINGS go: `ConnectionInner.config` (the LOCAL configuration `build` was given —
+    what is sent to the peer and what the endpoint itself is willing to do) and the cell of `SharedState` that
+    holds what the PEER announced. -/
+structure Conn where
+  config : Config
+  cell : Cell
+deriving Repr, DecidableEq
+
+/-- `poll_control`, first frame of the peer's control stream: `self.got_peer_settings = true;
+    self.set_settings((&settings).into());` — the local configuration is not consulted (nothing is clamped to
+    it, nothing of it is overwritten). -/
+def Conn.receive (k : Conn) (payload : Bytes) : Conn × Option Nat :=
+  ({ k with cell := (Config.receive k.cell payload).1 }, (Config.receive k.cell payload).2)
+
 /-- One entry of `ConnectionInner::pending_recv_streams` as a poll of `poll_accept_recv` finds it
     (only what matters for the peer's SETTINGS). -/
 inductive Waiting where
@@ -113,22 +127,41 @@ inductive Waiting where
   /-- the stream resolves to the peer's control stream; its first frame is a complete SETTINGS
       frame carrying `payload` -/
   | control (payload : Bytes)
+  /-- the header is complete and names something else (a QPACK stream, a WebTransport stream with its
+      session id, an unknown / grease type): `err` = the connection error `poll_accept_recv` raises for it
+      (`H3.Control.acceptKind`, C04: a second QPACK encoder / decoder stream), `none` = the stream is kept,
+      dropped or answered with STOP_SENDING and the loop goes on with the streams behind it -/
+  | foreign (err : Option Nat)
+deriving Repr, DecidableEq
+
+/-- what one pass over `pending_recv_streams` finds -/
+inductive Scan where
+  /-- no control stream among the resolved streams -/
+  | nothing
+  /-- the control stream `poll_control` then reads, with the payload of its SETTINGS frame -/
+  | settings (payload : Bytes)
+  /-- a stream in front of the control stream made `poll_accept_recv` return a connection error -/
+  | failed (code : Nat)
 deriving Repr, DecidableEq
 
 /-- The `for stream in self.pending_recv_streams.iter_mut()` loop of `poll_accept_recv`:
     `Poll::Pending => continue` — a stream whose header is incomplete is passed over, the streams
-    behind it are looked at in the same poll.  Result: the SETTINGS payload of the control stream
-    that `poll_control` then reads, if one was found. -/
-def scan : List Waiting → Option Bytes
-  | [] => none
+    behind it are looked at in the same poll; resolved streams are handled in arrival order, an error
+    among them ends the call.  Result: the SETTINGS payload of the control stream that `poll_control`
+    then reads, if one was found. -/
+def scan : List Waiting → Scan
+  | [] => .nothing
   | .header :: r => scan r
-  | .control p :: _ => some p
+  | .foreign none :: r => scan r
+  | .foreign (some e) :: _ => .failed e
+  | .control p :: _ => .settings p
 
 /-- One poll of the connection driver (`poll_control` → `poll_accept_recv` → first frame of the
     control stream) with these accepted unidirectional streams, in arrival order. -/
 def receiveScan (c : Cell) (ws : List Waiting) : Cell × Option Nat :=
   match scan ws with
-  | none => (c, none)
-  | some p => receive c p
+  | .nothing => (c, none)
+  | .failed e => (c, some e)
+  | .settings p => receive c p
 
 end H3.Config
